@@ -17,6 +17,14 @@ MUT = [
  ('tau_sign', 'pySDC/core/base_transfer.py', "            G.tau[m] = tauFG[m] - tauG[m]", "            G.tau[m] = tauFG[m] + tauG[m]", ['C10', 'C01']),
  ('fd_wrap_diag', 'pySDC/helpers/problem_helper.py', "                A_1d += coeff[i] * sp.eye(size, k=-size + steps[i])", "                A_1d += coeff[i] * sp.eye(size, k=-size + steps[i] + 1)", ['C18']),
  ('fd_upwind_steps', 'pySDC/helpers/problem_helper.py', "            steps = np.append(-np.arange(n - 1)[::-1], [1])", "            steps = np.append(-np.arange(n - 1)[::-1], [2])", ['C18']),
+ # ---- second batch: controller stages on blocks of steps, predictor, coarse u0, Neumann boundary vector, 2-D assembly
+ ('it_coarse_sweep_before_recv', 'pySDC/implementations/controller_classes/controller_nonMPI.py', "            # receive from previous step (if not first)\n            self.recv_full(S, level=len(S.levels) - 1)\n", "", ['C01', 'C07']),
+ ('it_down_mid_no_comm', 'pySDC/implementations/controller_classes/controller_nonMPI.py', "                for S in local_MS_running:\n                    # send updated values forward\n                    self.send_full(S, level=l)\n                    # receive values\n                    self.recv_full(S, level=l)\n\n                for S in local_MS_running:\n                    for hook in self.hooks:\n                        hook.pre_sweep(step=S, level_number=l)\n                    S.levels[l].sweep.update_nodes()\n                    S.levels[l].sweep.compute_residual(stage='IT_DOWN')", "                for S in local_MS_running:\n                    for hook in self.hooks:\n                        hook.pre_sweep(step=S, level_number=l)\n                    S.levels[l].sweep.update_nodes()\n                    S.levels[l].sweep.compute_residual(stage='IT_DOWN')", ['C01', 'C10']),
+ ('burnin_recv_range', 'pySDC/implementations/controller_classes/controller_nonMPI.py', "                for p in range(q + 1, len(local_MS_running)):", "                for p in range(q + 2, len(local_MS_running)):", ['C01']),
+ ('restrict_skip_u0', 'pySDC/core/base_transfer.py', "        G.u[0] = self.space_transfer.restrict(F.u[0])\n", "        G.u[0] = G.u[0] if G.u[0] is not None else self.space_transfer.restrict(F.u[0])\n", ['C10', 'C01']),
+ ('neumann_b_without_dx', 'pySDC/helpers/problem_helper.py', "                    b[iLine] = val * b_coeff[iCoeff] / n_coeff[iCoeff] * dx", "                    b[iLine] = val * b_coeff[iCoeff] / n_coeff[iCoeff]", ['C18']),
+ ('kron2d_transposed', 'pySDC/helpers/problem_helper.py', "        A = sp.kron(A_1d, sp.eye(size)) + sp.kron(sp.eye(size), A_1d)", "        A = sp.kron(A_1d, sp.eye(size)) + sp.kron(sp.eye(size), A_1d.T)", ['C18']),
+ ('send_stale_uend', 'pySDC/implementations/controller_classes/controller_nonMPI.py', "            source.sweep.compute_end_point()\n            source.tag = cp.deepcopy(tag)", "            if source.uend is None:\n                source.sweep.compute_end_point()\n            source.tag = cp.deepcopy(tag)", ['C01', 'C06']),
 ]
 only = sys.argv[1:]
 subprocess.run(['git', '-C', '/repo', 'worktree', 'remove', '--force', WT], capture_output=True)
@@ -42,4 +50,10 @@ try:
         print(name, out, flush=True)
 finally:
     subprocess.run(['git', '-C', '/repo', 'worktree', 'remove', '--force', WT], capture_output=True)
-json.dump(res, open('/verif/docs/self_mutation_orchestrator.json', 'w'), indent=1)
+prev = {}
+try:
+    prev = json.load(open('/verif/docs/self_mutation_orchestrator.json'))
+except Exception:
+    pass
+prev.update(res)
+json.dump(prev, open('/verif/docs/self_mutation_orchestrator.json', 'w'), indent=1)
